@@ -208,5 +208,9 @@ def run(ctx, tier):
     declare(ctx)
     run_path_rules(ctx, __name__, 'path_rules', ['G0', 'G10', 'G11'], unroll=1)
     merged_rule(ctx)
+    ctx.rule('C07.R4', 'firmware retract / recover commands are "G10" / "G11" plus the parameter text of the original command: the '
+                       'extraction regex matches every command text the hooks can pass (a non-match splices the whole command in)', floor=1)
+    from .rules_c05 import regex_rule
+    regex_rule(ctx, 'C07.R4')
     ctx.assume('values are finite (inf/nan need value ranges and are not decided)')
     ctx.assume('the parameter text re-used for firmware retractions comes from the incoming command (already valid G-code)')
